@@ -30,9 +30,10 @@ import (
 //
 // Special case: Abs(±Inf) = +Inf
 func Abs(x *internal.Decimal) (*internal.Decimal, error) {
+	// The absolute value is exact: it has the digits of x.
 	var d internal.Decimal
-	_, err := internal.BaseContext.Abs(&d, x)
-	return &d, err
+	d.Abs(x)
+	return &d, nil
 }
 
 // Acosh returns the inverse hyperbolic cosine of x.
